@@ -12,33 +12,36 @@ theorem tie_facts : Nv.Gen.C06.facts = Facts.expected := by decide
 
 /-- the regenerated `figureShift` is the model's -/
 theorem tie_figureShift (nb : BitVec 8) (nal : Bool) :
-    Nv.Gen.C06.figureShift nb nal = Nv.C06.figureShift nb nal := by
-  unfold Nv.Gen.C06.figureShift Nv.C06.figureShift; cases nal <;> rfl
+    Nv.Gen.C06.figureShiftC nb nal = Nv.C06.figureShift nb nal := by
+  unfold Nv.Gen.C06.figureShiftC Nv.Gen.C06.figureShift Nv.C06.figureShift; cases nal <;> rfl
+
+theorem tie_figureShift' (nb : BitVec 8) (nal : Bool) :
+    Nv.Gen.C06.figureShift nb nal = Nv.C06.figureShift nb nal := tie_figureShift nb nal
 
 theorem tie_idFields (id : BitVec 64) (nb : BitVec 8) (nal : Bool) :
-    Nv.Gen.C06.iDFields id nb nal = Nv.C06.idFields id nb nal := by
-  unfold Nv.Gen.C06.iDFields Nv.C06.idFields
-  rw [tie_figureShift]
+    Nv.Gen.C06.idFieldsC id nb nal = Nv.C06.idFields id nb nal := by
+  unfold Nv.Gen.C06.idFieldsC Nv.Gen.C06.iDFields Nv.C06.idFields
+  rw [tie_figureShift']
 
 /-- the regenerated `HardNode.Generate` is the model's `hardCore` applied to `now` computed through the
     accessor the extractor classified (`Gen.cfg.nowAcc`) -/
-theorem tie_hardGenerate (step time epoch node : BitVec 64) (nb : BitVec 8) (nal : Bool) (w : BitVec 64) :
-    Nv.Gen.C06.hardNode_generate step time epoch node nb nal w =
+theorem tie_hardGenerate (epoch time node step : BitVec 64) (nb : BitVec 8) (nal : Bool) (w : BitVec 64) :
+    Nv.Gen.C06.hardGenerateC epoch time node step w nb nal =
       (let r := hardCore nb nal ⟨epoch, time, node, step⟩ (hardNow Nv.Gen.C06.cfg epoch w)
-       (r.2, r.1.step, r.1.time)) := by
-  unfold Nv.Gen.C06.hardNode_generate hardCore hardNow join
-  simp only [tie_figureShift, Nv.Gen.C06.cfg, accMs]
+       (r.2, r.1.time, r.1.step)) := by
+  unfold Nv.Gen.C06.hardGenerateC Nv.Gen.C06.hardNode_generate hardCore hardNow join
+  simp only [tie_figureShift', Nv.Gen.C06.cfg, accMs]
   split
   · rfl
   · split <;> rfl
 
 theorem tie_nanoGen (ts cur : BitVec 64) :
-    Nv.Gen.C06.unixNanoID_genIDByTS ts cur = nanoGen ts cur := by
-  unfold Nv.Gen.C06.unixNanoID_genIDByTS nanoGen; split <;> rfl
+    Nv.Gen.C06.nanoGenC ts cur = nanoGen ts cur := by
+  unfold Nv.Gen.C06.nanoGenC Nv.Gen.C06.unixNanoID_genIDByTS nanoGen; split <;> rfl
 
 theorem tie_nanoNoLockGen (ts cur : BitVec 64) :
-    Nv.Gen.C06.unixNanoNoLockID_genIDByTS ts cur = nanoGen ts cur := by
-  unfold Nv.Gen.C06.unixNanoNoLockID_genIDByTS nanoGen; split <;> rfl
+    Nv.Gen.C06.nanoNoLockGenC ts cur = nanoGen ts cur := by
+  unfold Nv.Gen.C06.nanoNoLockGenC Nv.Gen.C06.unixNanoNoLockID_genIDByTS nanoGen; split <;> rfl
 
 /-! ### the property, on runs of the regenerated kernels -/
 
@@ -46,9 +49,9 @@ theorem tie_nanoNoLockGen (ts cur : BitVec 64) :
 def genHardRun (nb : BitVec 8) (nal : Bool) (epoch node : BitVec 64) : BitVec 64 → BitVec 64 → List (BitVec 64) → List (BitVec 64)
   | _, _, [] => []
   | step, time, w :: ws =>
-    (Nv.Gen.C06.hardNode_generate step time epoch node nb nal w).1 ::
-      genHardRun nb nal epoch node (Nv.Gen.C06.hardNode_generate step time epoch node nb nal w).2.1
-        (Nv.Gen.C06.hardNode_generate step time epoch node nb nal w).2.2 ws
+    (Nv.Gen.C06.hardGenerateC epoch time node step w nb nal).1 ::
+      genHardRun nb nal epoch node (Nv.Gen.C06.hardGenerateC epoch time node step w nb nal).2.2
+        (Nv.Gen.C06.hardGenerateC epoch time node step w nb nal).2.1 ws
 
 theorem hardCore_keeps (nb : BitVec 8) (nal : Bool) (st : HState) (now : BitVec 64) :
     (hardCore nb nal st now).1.epoch = st.epoch ∧ (hardCore nb nal st now).1.node = st.node := by
@@ -79,7 +82,7 @@ theorem tie_hard_strictly_increasing {nb : BitVec 8} (hl : LayoutOk nb) (nal : B
     (hw : InWidth nb nal ⟨epoch, time, node, step⟩ (ws.map (hardNow Nv.Gen.C06.cfg epoch))) :
     (genHardRun nb nal epoch node step time ws).Pairwise (fun a b => a.toInt < b.toInt) ∧
     (genHardRun nb nal epoch node step time ws).Nodup ∧
-    ∀ id ∈ genHardRun nb nal epoch node step time ws, (Nv.Gen.C06.iDFields id nb nal).2.1 = node := by
+    ∀ id ∈ genHardRun nb nal epoch node step time ws, (Nv.Gen.C06.idFieldsC id nb nal).2.1 = node := by
   rw [tie_genHardRun]
   refine ⟨hard_strictly_increasing hl nal _ _ wf hw, hard_unique hl nal _ _ wf hw, fun id h => ?_⟩
   rw [tie_idFields]; exact hard_node_field hl nal _ _ wf hw id h
@@ -87,7 +90,7 @@ theorem tie_hard_strictly_increasing {nb : BitVec 8} (hl : LayoutOk nb) (nal : B
 /-- successive calls of the regenerated `GenIDByTS` -/
 def genNanoRun : BitVec 64 → List (BitVec 64) → List (BitVec 64)
   | _, [] => []
-  | cur, ts :: rest => (Nv.Gen.C06.unixNanoID_genIDByTS ts cur).1 :: genNanoRun (Nv.Gen.C06.unixNanoID_genIDByTS ts cur).2 rest
+  | cur, ts :: rest => (Nv.Gen.C06.nanoGenC ts cur).1 :: genNanoRun (Nv.Gen.C06.nanoGenC ts cur).2 rest
 
 theorem tie_genNanoRun : ∀ (tss : List (BitVec 64)) (cur : BitVec 64), genNanoRun cur tss = nanoRun cur tss
   | [], _ => rfl
@@ -106,7 +109,7 @@ theorem tie_hard_ts_ge_clock {nb : BitVec 8} (hl : LayoutOk nb) (nal : Bool) (ts
     (hok : ∀ t ∈ ts, ClockOk st.epoch t)
     (hw : InWidth nb nal st (ts.map (fun t => hardNow Nv.Gen.C06.cfg st.epoch (accWord Nv.Gen.C06.cfg.nowAcc t)))) :
     ∀ p ∈ List.zip ts (genHardRun nb nal st.epoch st.node st.step st.time (ts.map (accWord Nv.Gen.C06.cfg.nowAcc))),
-      p.1.ms - st.epoch.toInt ≤ (Nv.Gen.C06.iDFields p.2 nb nal).1.toInt := by
+      p.1.ms - st.epoch.toInt ≤ (Nv.Gen.C06.idFieldsC p.2 nb nal).1.toInt := by
   intro p hp
   rw [tie_genHardRun, List.map_map] at hp
   rw [tie_idFields]
